@@ -219,7 +219,7 @@ def regenerate_tables():
     return tables
 
 
-_THM_RE = re.compile(r"^\s*(?:protected\s+)?theorem\s+([A-Za-z_][A-Za-z0-9_.']*)", re.M)
+_THM_RE = re.compile(r"^\s*(?:protected\s+)?theorem\s+([A-Za-z_][A-Za-z0-9_.'?!]*)", re.M)
 _NS_RE = re.compile(r"^\s*namespace\s+([A-Za-z0-9_.]+)", re.M)
 
 
